@@ -120,6 +120,9 @@ func (s *mState) canonTimed() string {
 	var sb strings.Builder
 	sb.WriteString(s.canon())
 	fmt.Fprintf(&sb, "#phase=%d", int(s.Now*1000+0.5)%200)
+	if s.RO {
+		sb.WriteString(",RO") // a server setting, but one that decides what the next symbols do
+	}
 	for _, k := range sortedKeys(s.Cols) {
 		for _, id := range sortedKeys(s.Cols[k]) {
 			if o := s.Cols[k][id]; o.Dead {
@@ -365,6 +368,9 @@ func mApply(s *mState, a []string) string {
 		if nx && old != nil {
 			return "<nil>"
 		}
+		if s.Timed && ex < 0 {
+			ex = 0 // a deadline in the past: overdue as of now (the sweeper's window starts now)
+		}
 		o := &mObj{Kind: kind, Val: val, Fields: map[string]string{}, Dead: hasEx, TTL: ex}
 		if old != nil {
 			for k, v := range old.Fields {
@@ -516,6 +522,9 @@ func mApply(s *mState, a []string) string {
 		if o == nil {
 			return ":0"
 		}
+		if s.Timed && f < 0 {
+			f = 0
+		}
 		o.Dead, o.TTL = true, f
 		return ":1"
 	case "persist":
@@ -610,6 +619,9 @@ func mApply(s *mState, a []string) string {
 		for j := 0; j+1 < len(rest); j++ {
 			if strings.ToLower(rest[j]) == "ex" {
 				if f, err := strconv.ParseFloat(rest[j+1], 64); err == nil {
+					if s.Timed && f < 0 {
+						f = 0
+					}
 					h.Dead, h.TTL = true, f
 				}
 			}
@@ -619,6 +631,9 @@ func mApply(s *mState, a []string) string {
 		s.Hooks[pre+a[1]] = h
 		if old != nil && old.Spec == h.Spec && !h.Dead {
 			return ":0"
+		}
+		if old != nil && old.Spec == h.Spec && old.Dead && old.TTL > 5e9 && h.TTL > 5e9 {
+			return ":0" // both deadlines are clamped to the end of the representable range: nothing changed
 		}
 		return ":1"
 	case "delhook", "delchan":
@@ -773,8 +788,11 @@ func mApply(s *mState, a []string) string {
 		if !o.Dead {
 			return ":-1"
 		}
+		if s.Timed && o.TTL > 5e9 {
+			return "~ttl" // a deadline beyond the representable range is clamped: some large number
+		}
 		if s.Timed {
-			return ":" + strconv.Itoa(int(o.TTL))
+			return ":" + strconv.Itoa(int(math.Max(o.TTL, 0)))
 		}
 		return "~ttl"
 	case "type":
